@@ -26,7 +26,8 @@ def run(ctx):
                          "scope through DerefMut), guard drops in random order, guards moved to other threads, mem::forget of a guard, yields/sleeps/spins, 1-3 rounds per case "
                          "separated by reset / reset_to_start / nothing, then drop of the pool; the history is ordered by lock tickets and replayed on the model; "
                          "plus deterministic probes of the pop-or-create critical section for each of the six get variants (the base allocator, called while the pool creates the "
-                         "fallback arena, asks a partner thread to drop the only live guard and watches for 50 ms whether that drop can complete: it must block on the pool mutex); "
+                         "fallback arena, asks a partner thread to drop the only live guard and watches for 50 ms whether that drop can complete: it must block on the pool mutex) and of "
+                         "the reuse of an idle arena that is in the claimed state (leaked claim guard; idle stacks [claimed] and [usable, claimed]: no base-allocator traffic during the gets); "
                          "distinct_nontrivial counts distinct linearised histories (hash of the case text)")
     proved = prove(ctx, MODULES)
     n_single, n_threads, n_probe = (80, 240, 2) if ctx.quick() else (4000, 20000, 40)     # run_pool deepens them itself (ctx.scale())
